@@ -337,4 +337,237 @@ theorem richOracle_ok (lb : Nat → Nat → Bool) : OracleOK (richOracle lb) := 
   intro h
   exact this.2.2 (by omega)
 
+/-! ### Line width -/
+
+theorem natWidth_eq_sumW (l : List Cell) : natWidth l = sumW l := by
+  induction l with
+  | nil => rfl
+  | cons c cs ih => simp [natWidth, sumW] at ih ⊢; omega
+
+theorem sumW_append (a b : List Cell) : sumW (a ++ b) = sumW a + sumW b := by
+  induction a with
+  | nil => simp [sumW]
+  | cons c cs ih => simp [sumW, ih]; omega
+
+theorem trimTrailing_eq (l : List Cell) : trimTrailing l = trimRight l := rfl
+
+theorem dropWhile_append_all {α : Type} (p : α → Bool) : ∀ (l m : List α), (∀ x ∈ l, p x = true) →
+    (l ++ m).dropWhile p = m.dropWhile p := by
+  intro l
+  induction l with
+  | nil => intro m _; rfl
+  | cons x xs ih =>
+    intro m h
+    have hx : p x = true := h x (by simp)
+    rw [List.cons_append, List.dropWhile_cons, hx]
+    simp only [↓reduceIte]
+    exact ih m (fun y hy => h y (by simp [hy]))
+
+theorem trimRight_append_sp (a b : List Cell) (h : ∀ c ∈ b, c.sp = true) :
+    trimRight (a ++ b) = trimRight a := by
+  unfold trimRight
+  rw [List.reverse_append, dropWhile_append_all (·.sp) b.reverse a.reverse (by
+    intro x hx; exact h x (List.mem_reverse.mp hx))]
+
+theorem sumW_trimRight_le (l : List Cell) : sumW (trimRight l) ≤ sumW l := by
+  have := congrArg sumW (trim_append_trailing l)
+  rw [sumW_append] at this
+  omega
+
+theorem sumW_take_le (l : List Cell) (m : Nat) : sumW (l.take m) ≤ sumW l := by
+  have := congrArg sumW (List.take_append_drop m l)
+  rw [sumW_append] at this
+  omega
+
+theorem stripBreak_eq_take (seg : List Cell) : ∃ m, stripBreak seg = seg.take m := by
+  unfold stripBreak
+  cases seg.getLast? with
+  | none => exact ⟨seg.length, by simp⟩
+  | some l =>
+    simp only
+    split
+    · exact ⟨seg.length - 1, List.dropLast_eq_take⟩
+    · exact ⟨seg.length, by simp⟩
+
+/-- Width bound used for every returned token: a prefix of `word ++ trailing spaces` appended to a
+token of width `w`. -/
+theorem trimmed_prefix_le (token seg : List Cell) (m : Nat) :
+    sumW (trimRight (token ++ seg.take m)) ≤ sumW token + sumW (trimRight seg) := by
+  have hseg := trim_append_trailing seg
+  have : seg.take m = (trimRight seg).take m ++ (trailing seg).take (m - (trimRight seg).length) := by
+    conv => lhs; rw [← hseg]
+    rw [List.take_append]
+  rw [this, ← List.append_assoc, trimRight_append_sp _ _ (by
+    intro c hc; exact trailing_all_sp seg c (List.mem_of_mem_take hc))]
+  have h1 := sumW_trimRight_le (token ++ (trimRight seg).take m)
+  rw [sumW_append] at h1
+  have h2 := sumW_take_le (trimRight seg) m
+  omega
+
+theorem splitLong_ne_bound (width : Nat) : ∀ (l : List Cell) (w : Nat), w ≤ width →
+    w + sumW (splitLong width true w l).1 ≤ width := by
+  intro l
+  induction l with
+  | nil => intro w h; simp [splitLong, sumW]; exact h
+  | cons c cs ih =>
+    intro w h
+    unfold splitLong
+    simp only [Bool.true_and]
+    by_cases hfit : w + c.w > width
+    · simp only [hfit, decide_true, ↓reduceIte, ge_iff_le, Nat.le_refl]
+      rw [splitLong_full width true cs width (Nat.le_refl _)]
+      simp [sumW]; exact h
+    · simp only [hfit, decide_false, Bool.false_eq_true, ↓reduceIte, ge_iff_le]
+      by_cases hge : width ≤ w
+      · simp only [hge, ↓reduceIte]
+        rw [splitLong_full width true cs w hge]
+        simp [sumW]; exact h
+      · simp only [hge, ↓reduceIte, sumW]
+        have := ih (w + c.w) (by omega)
+        omega
+
+theorem splitLong_empty_bound (width : Nat) (l : List Cell) :
+    sumW (splitLong width false 0 l).1 ≤ width ∨ ∃ c, (splitLong width false 0 l).1 = [c] := by
+  cases l with
+  | nil => left; simp [splitLong, sumW]
+  | cons c cs =>
+    unfold splitLong
+    simp only [Bool.false_and, Bool.false_eq_true, ↓reduceIte, ge_iff_le, Nat.zero_add]
+    by_cases h0 : width ≤ 0
+    · simp only [h0, ↓reduceIte]
+      rw [splitLong_full width false cs 0 h0]
+      left; simp [sumW]
+    · simp only [h0, ↓reduceIte]
+      by_cases hc : c.w ≤ width
+      · left
+        have := splitLong_ne_bound width cs c.w hc
+        simp only [sumW]
+        omega
+      · right
+        rw [splitLong_full width true cs c.w (by omega)]
+        exact ⟨c, rfl⟩
+
+open VaxisModel.Spec.Wrap (lineWidthOK) in
+theorem lineWidthOK_of_le (width : Nat) (l : List Cell) (h : sumW (trimRight l) ≤ width) :
+    lineWidthOK width l = true := by
+  unfold lineWidthOK
+  rw [trimTrailing_eq, natWidth_eq_sumW]
+  simp [h]
+
+open VaxisModel.Spec.Wrap (lineWidthOK) in
+theorem lineWidthOK_single (width : Nat) (c : Cell) : lineWidthOK width [c] = true := by
+  unfold lineWidthOK
+  rw [trimTrailing_eq, natWidth_eq_sumW]
+  by_cases hs : c.sp = true
+  · simp [trimRight, hs, sumW]
+  · have : trimRight [c] = [c] := by simp [trimRight, hs]
+    rw [this]
+    by_cases hw : c.w ≤ width
+    · simp [sumW, hw]
+    · simp [sumW]; omega
+
+open VaxisModel.Spec.Wrap (lineWidthOK) in
+/-- Every token returned by the loop respects the width, given the loop invariant
+`sumW token = w ≤ width`. -/
+theorem scanLoop_width {σ : Type} (o : σ → List Cell → Nat × Bool × σ) (width : Nat) :
+    ∀ (fuel : Nat) (rest : List Cell) (st : σ) (token : List Cell) (w : Nat)
+      (rest' : List Cell) (st' : σ) (tok : List Cell),
+    sumW token = w → w ≤ width →
+    scanLoop o width fuel rest st token w = .line rest' st' tok →
+    lineWidthOK width tok = true := by
+  intro fuel
+  induction fuel with
+  | zero => intro rest st token w rest' st' tok _ _ h; simp [scanLoop] at h
+  | succ n ih =>
+    intro rest st token w rest' st' tok hsum hle h
+    unfold scanLoop at h
+    simp only [] at h
+    generalize o st rest = r at h
+    obtain ⟨k, br, st2⟩ := r
+    simp only [] at h
+    rw [drop_trim] at h
+    split at h
+    · -- long word
+      simp only [Scan.line.injEq] at h
+      obtain ⟨_, _, h3⟩ := h
+      subst h3
+      cases htok : token with
+      | nil =>
+        subst htok
+        simp only [sumW] at hsum
+        subst hsum
+        simp only [List.isEmpty_nil, Bool.not_true, List.nil_append]
+        rcases splitLong_empty_bound width (trimRight (rest.take k)) with hb | ⟨c, hc⟩
+        · exact lineWidthOK_of_le width _ (Nat.le_trans (sumW_trimRight_le _) hb)
+        · rw [hc]; exact lineWidthOK_single width c
+      | cons t ts =>
+        simp only [List.isEmpty_cons, Bool.not_false]
+        have hb := splitLong_ne_bound width (trimRight (rest.take k)) w hle
+        apply lineWidthOK_of_le
+        have hs' : sumW (t :: ts) = w := by rw [← htok]; exact hsum
+        have := sumW_trimRight_le ((t :: ts) ++ (splitLong width true w (trimRight (rest.take k))).1)
+        rw [sumW_append, hs'] at this
+        omega
+    · split at h
+      · simp only [Scan.line.injEq] at h
+        obtain ⟨_, _, h3⟩ := h
+        subst h3
+        apply lineWidthOK_of_le
+        have := sumW_trimRight_le token
+        omega
+      · rename_i hnl hnf
+        split at h
+        · simp only [Scan.line.injEq] at h
+          obtain ⟨_, _, h3⟩ := h
+          subst h3
+          obtain ⟨m, hm⟩ := stripBreak_eq_take (rest.take k)
+          rw [hm]
+          apply lineWidthOK_of_le
+          have := trimmed_prefix_le token (rest.take k) m
+          omega
+        · split at h
+          · simp only [Scan.line.injEq] at h
+            obtain ⟨_, _, h3⟩ := h
+            subst h3
+            apply lineWidthOK_of_le
+            have := sumW_trimRight_le (token ++ trimRight (rest.take k))
+            rw [sumW_append] at this
+            omega
+          · rename_i hsp
+            refine ih _ _ _ _ _ _ _ ?_ ?_ h
+            · rw [sumW_append, sumW_append, hsum]
+            · omega
+
+open VaxisModel.Spec.Wrap (lineWidthOK) in
+theorem scan_width {σ : Type} (o : σ → List Cell → Nat × Bool × σ) (width : Nat)
+    (rest : List Cell) (st : σ) (rest' : List Cell) (st' : σ) (tok : List Cell)
+    (h : scan o width rest st = .line rest' st' tok) : lineWidthOK width tok = true := by
+  unfold scan at h
+  split at h
+  · cases h
+  · exact scanLoop_width o width _ _ _ _ _ _ _ _ rfl (Nat.zero_le _) h
+
+open VaxisModel.Spec.Wrap (lineWidthOK) in
+theorem scanAll_width {σ : Type} (o : σ → List Cell → Nat × Bool × σ) (width : Nat) :
+    ∀ (fuel : Nat) (rest : List Cell) (st : σ) (ls : List (List Cell)),
+    scanAll o width fuel rest st = .ok ls → ∀ l ∈ ls, lineWidthOK width l = true := by
+  intro fuel
+  induction fuel with
+  | zero => intro rest st ls h; simp [scanAll] at h
+  | succ n ih =>
+    intro rest st ls h
+    unfold scanAll at h
+    split at h
+    · cases h; intro l hl; simp at hl
+    · cases h
+    · rename_i rest' st' tok hs
+      split at h
+      · rename_i ls' hls
+        cases h
+        intro l hl
+        rcases List.mem_cons.mp hl with rfl | hl
+        · exact scan_width o width _ _ _ _ _ hs
+        · exact ih _ _ _ hls l hl
+      · cases h
+
 end VaxisModel.Lemmas.Wrap
